@@ -304,13 +304,24 @@ def reject_cases():
     return out
 
 
-def generate(rng, tier):
-    n = 440 if tier == "quick" else 8000
-    cases = reject_cases()
+REQUIRED_SEED = 1      # a constant, independent of VERIF_SEED and of the tier (sanity() holds on this stream)
+
+
+def _stream(rng, tier, n):
     classes = list(KINDS)
-    for i in range(n):
-        cases.append(gen_enc_case(rng, tier, cls=classes[i % len(classes)] if i < 4 * len(classes) else None))
-    return cases
+    return [gen_enc_case(rng, tier, cls=classes[i % len(classes)] if i < 4 * len(classes) else None)
+            for i in range(n)]
+
+
+def required_cases():
+    """The deterministic stream every requirement of sanity() is judged on: the full rejection table plus
+    encoder cases from an own constant seed -- the same in both tiers and under every VERIF_SEED."""
+    return [dict(c, required=True) for c in reject_cases() + _stream(C.Rng(REQUIRED_SEED), "quick", 330)]
+
+
+def generate(rng, tier):
+    n = 110 if tier == "quick" else 8000
+    return required_cases() + _stream(rng, tier, n)
 
 
 # ------------------------------------------------------------------------- run
@@ -985,6 +996,9 @@ def stats(cases, obss):
 def sanity(cases, obss):
     """Fail-closed distribution check: every class, every admissible strategy, both parameter modes, missing
     cells, empty batches and effective perturbations must be drawn; raising cases stay a small minority."""
+    # judged on the deterministic required stream alone (seed-independent by construction)
+    req = [(c, o) for c, o in zip(cases, obss) if c is not None and c.get("required")]
+    cases, obss = [c for c, _ in req], [o for _, o in req]
     d = stats(cases, obss)
     probs = []
     n = d["total"] - d["reject_cases"]
